@@ -7,18 +7,18 @@ Open Scope string_scope.
 
 (** * Strings *)
 
-Lemma app_nil_r (s : string) : s ++ "" = s.
+Lemma sapp_nil_r (s : string) : s ++ "" = s.
 Proof. induction s as [|c s IH]; simpl; [reflexivity | now rewrite IH]. Qed.
 
-Lemma app_assoc (a b c : string) : (a ++ b) ++ c = a ++ b ++ c.
+Lemma sapp_assoc (a b c : string) : (a ++ b) ++ c = a ++ b ++ c.
 Proof. induction a as [|x a IH]; simpl; [reflexivity | now rewrite IH]. Qed.
 
 (** Right-associate and compute appends with literal left operands. *)
-Ltac snorm := repeat first [rewrite app_assoc | progress cbn [append sconcat map]].
+Ltac snorm := repeat first [rewrite sapp_assoc | progress cbn [append sconcat map]].
 Ltac seq := snorm; try reflexivity.
 
 Lemma sconcat_app (l1 l2 : list string) : sconcat (l1 ++ l2)%list = sconcat l1 ++ sconcat l2.
-Proof. induction l1 as [|x l1 IH]; simpl; [reflexivity | now rewrite IH, app_assoc]. Qed.
+Proof. induction l1 as [|x l1 IH]; simpl; [reflexivity | now rewrite IH, sapp_assoc]. Qed.
 
 Lemma all_chars_app p a b : all_chars p (a ++ b) = all_chars p a && all_chars p b.
 Proof. induction a as [|x a IH]; simpl; [reflexivity | now rewrite IH, andb_assoc]. Qed.
@@ -158,7 +158,7 @@ Proof.
 Qed.
 
 Lemma ws_text_ok w : ws_ok w = true -> text_ok w = true.
-Proof. intros H. rewrite <- (app_nil_r w). now apply text_ok_ws_app. Qed.
+Proof. intros H. rewrite <- (sapp_nil_r w). now apply text_ok_ws_app. Qed.
 
 (** * Building derivations *)
 
@@ -201,7 +201,7 @@ Lemma wf_content_ws w c : ws_ok w = true -> wf_content c -> wf_content (w ++ c).
 Proof.
   intros Hw Hc. destruct Hc as [t Ht | t n e c Ht He Hc].
   - apply wc_last. now apply text_ok_ws_app.
-  - rewrite <- app_assoc. apply wc_cons with (n := n); auto. now apply text_ok_ws_app.
+  - rewrite <- sapp_assoc. apply wc_cons with (n := n); auto. now apply text_ok_ws_app.
 Qed.
 
 (** A sequence of pieces, each an element followed by white space, is content. *)
@@ -212,12 +212,12 @@ Lemma wf_content_pieces l c :
   Forall elem_ws l -> wf_content c -> wf_content (sconcat l ++ c).
 Proof.
   induction 1 as [|s l (n & e & w & -> & He & Hw) _ IH]; intros Hc; simpl; [exact Hc|].
-  rewrite !app_assoc. apply wf_content_elem with (n := n); [exact He|].
+  rewrite !sapp_assoc. apply wf_content_elem with (n := n); [exact He|].
   apply wf_content_ws; auto.
 Qed.
 
 Lemma elem_ws_of_elem n e : wf_elem n e -> elem_ws e.
-Proof. intros H. exists n, e, "". now rewrite app_nil_r. Qed.
+Proof. intros H. exists n, e, "". now rewrite sapp_nil_r. Qed.
 
 Lemma wf_document_root_intro root e w : wf_elem root e -> ws_ok w = true -> wf_document_root root (e ++ w).
 Proof. intros He Hw. exists "", e, w. now repeat split. Qed.
